@@ -91,14 +91,21 @@ def records_report(labels, env, rep, ntaxa, nrep):
 
 # ---------------------------------------------------------------- means
 def taxon_means(labels, values):
-    """label -> (mean vector, count) with exactly rounded sums (math.fsum)."""
+    """label -> (mean vector, record count) with exactly rounded sums (math.fsum).
+
+    A NaN cell is an unobserved plot of that trait: every trait is averaged over ITS observed records of the taxon and is
+    NaN when the taxon has none.
+    """
     rows = collections.defaultdict(list)
     for lab, v in zip(labels, values):
         rows[lab].append(v)
     out = {}
     for lab, vs in rows.items():
-        k = len(vs)
-        out[lab] = (numpy.array([math.fsum(v[j] for v in vs) / k for j in range(len(vs[0]))], dtype=float), k)
+        m = []
+        for j in range(len(vs[0])):
+            obs = [v[j] for v in vs if v[j] == v[j]]
+            m.append(math.fsum(obs) / len(obs) if obs else float("nan"))
+        out[lab] = (numpy.array(m, dtype=float), len(vs))
     return out
 
 
